@@ -29,8 +29,11 @@ ALLOWED_AXIOMS = {"propext", "Classical.choice", "Quot.sound"}
 
 
 def load_props():
-    with open(os.path.join(VERIF, "bin", "props.json")) as f:
-        return json.load(f)
+    props = {}
+    for path in sorted(glob.glob(os.path.join(VERIF, "bin", "props.d", "C*.json"))):
+        with open(path) as f:
+            props[os.path.basename(path)[:-5]] = json.load(f)
+    return props
 
 
 def run(cmd, cwd=None, env=None, timeout=None, capture=True):
